@@ -3,6 +3,7 @@ mod net;
 mod c01;
 mod c02;
 mod c08;
+mod c09;
 mod c11;
 mod c12;
 mod c14;
@@ -29,6 +30,7 @@ fn main() {
         "C01" => c01::run(cli),
         "C02" => c02::run(cli),
         "C08" => c08::run(cli),
+        "C09" => c09::run(cli),
         "C11" => c11::run(cli),
         "C12" => c12::run(cli),
         "C14" => c14::run(cli),
